@@ -113,6 +113,17 @@ theorem C16_manifest_payload_roundtrip (c : CodecCfg) (e : Edit) (h : e.WF)
     (hl : (encodeEdit e).length < two63) : ((decodeEdit c).run (encodeEdit e)).1 = .ok e :=
   decodeEdit_encodeEdit c e h hl 0
 
+/-- With `pos < len(data)` in front of the raft-pointer and region arms (commit 9ece5dd) an
+edit written without a payload (`edit.Raft == nil`, `edit.Region == nil`) reads back with a
+nil payload; with `<=` it read back as an all-zero pointer / region. -/
+theorem C16_manifest_nil_payload_roundtrip (c : CodecCfg) (hc : c.manNilPayloadLt = true) :
+    (readEdit c (frameEdit ⟨6, .raft none⟩)).1 = .ok ⟨6, .raft none⟩ ∧
+    (readEdit c (frameEdit ⟨7, .region none⟩)).1 = .ok ⟨7, .region none⟩ := by
+  obtain ⟨f1, f2, uv, rb, pb, fb, np, f7, f8, f9, f10, f11, f12, f13⟩ := c
+  simp only at hc
+  subst hc
+  constructor <;> (cases fb <;> rfl)
+
 /-- Non-vacuity: a region edit with peers and a value-log head edit are well formed. -/
 example : Edit.WF ⟨7, .region (some ⟨5, false, [97], [98], 1, 2, 1, [⟨3, 4⟩, ⟨5, 6⟩]⟩)⟩ := by
   simp [Edit.WF, RegionEdit.WF, PeersWF, two64, oomLimit]
@@ -179,7 +190,7 @@ def manVarintWitness : Bytes := [78, 111, 75, 86, 0, 255, 255, 255, 255, 255, 25
 
 theorem C16_fails_asis_manifest_varint (c : CodecCfg) (hc : c.manUvarint = .raw) :
     ((decodeEdit c).run manVarintWitness).1 = .panic := by
-  obtain ⟨f1, f2, uv, f4, f5, f6, f7, f8, f9, f10, f11, f12, f13⟩ := c
+  obtain ⟨f1, f2, uv, f4, f5, f6, f6b, f7, f8, f9, f10, f11, f12, f13⟩ := c
   simp only at hc
   subst hc
   rfl
@@ -190,10 +201,10 @@ def manPeersWitness : Bytes := [78, 111, 75, 86, 7, 1, 0, 0, 0, 1, 1, 0, 128, 12
 
 theorem C16_fails_asis_manifest_peers (c : CodecCfg) (hc : c.manPeersBounded = false) :
     ((decodeEdit c).run manPeersWitness).1 = .oom := by
-  obtain ⟨f1, f2, uv, rb, pb, f6, f7, f8, f9, f10, f11, f12, f13⟩ := c
+  obtain ⟨f1, f2, uv, rb, pb, f6, np, f7, f8, f9, f10, f11, f12, f13⟩ := c
   simp only at hc
   subst hc
-  cases uv <;> cases rb <;> rfl
+  cases uv <;> cases rb <;> cases np <;> rfl
 
 /-- As-is (`make([]byte, length)` before reading): 4 bytes declaring a 2 GiB payload. -/
 theorem C16_fails_asis_manifest_frame (c : CodecCfg) (hc : c.manFrameBounded = false) :
@@ -519,7 +530,7 @@ theorem C16_entry_safe (c : CodecCfg) (hc : c.entryAllocBounded = true) (crc : B
 /-- As-is (`make([]byte, keyLen)` straight from the header): 8 bytes declaring a 4 GiB key. -/
 theorem C16_fails_asis_entry_alloc (c : CodecCfg) (hc : c.entryAllocBounded = false) (crc : Bytes → Nat) :
     (decodeEntry c crc [255, 255, 255, 255, 15, 0, 0, 0]).1 = .oom := by
-  obtain ⟨f1, f2, f3, f4, f5, f6, ea, f8, f9, f10, f11, f12, f13⟩ := c
+  obtain ⟨f1, f2, f3, f4, f5, f6, f6b, ea, f8, f9, f10, f11, f12, f13⟩ := c
   simp only at hc
   subst hc
   rfl
